@@ -169,65 +169,86 @@ def first_run(prog, rep):
 
 
 def _comment_rule(prog, fi):
-    """-> (ok, why).  Accepted shapes: "\n".join(<per-line result> for line in s.split("\n")) as a comprehension, or a loop
-    appending one result per line to a list that is then joined; the per-line result is the conditional expression
-    `"#" + line if line.strip() and not line.strip().startswith("[") else line` or a helper whose path summaries say the same."""
+    """-> (ok, why).  The result is "\n".join of one entry per line of s.split("\n") (comprehension or append loop); for every
+    path that produces an entry: '#' + line exactly on the paths that know the line is non-blank and not a table header,
+    the line itself on every other path."""
     from ..affine import Env
     from ..paths import PathSummary, _expand_test, summarize
-    from ..sqlmodel import single_def
+    from ..trace import resolve
 
     s = fi.params[0]
     rets = [n for n in walk_own(fi.node) if isinstance(n, ast.Return)]
     if len(rets) != 1 or not (isinstance(rets[0].value, ast.Call) and norm(rets[0].value.func) == "'\\n'.join" and len(rets[0].value.args) == 1):
         return False, "the result is not the lines joined with newlines"
     coll = rets[0].value.args[0]
-    producer, ln = None, None
+    env = Env(fi, prog, inline_locals=False)
+    outcomes = []  # (opaque conditions, literals, produced expression text)
     if isinstance(coll, (ast.ListComp, ast.GeneratorExp)) and len(coll.generators) == 1:
         g = coll.generators[0]
         if norm(g.iter) not in (f"{s}.split('\\n')",) or g.ifs:
             return False, f"lines come from `{norm(g.iter)}` (filtered: {bool(g.ifs)}), not from every line of the text"
-        producer, ln = coll.elt, norm(g.target)
+        ln = norm(g.target)
+
+        def expand(e, conds):
+            if isinstance(e, ast.IfExp):
+                t = e.test
+                if isinstance(t, ast.BoolOp) and isinstance(t.op, ast.And) and len(t.values) >= 2:
+                    # X if (A and B) else Y  ==  (X if B else Y) if A else Y
+                    rest = t.values[1] if len(t.values) == 2 else ast.BoolOp(op=ast.And(), values=t.values[1:])
+                    e = ast.IfExp(test=t.values[0], body=ast.IfExp(test=rest, body=e.body, orelse=e.orelse), orelse=e.orelse)
+                for pol, br in ((True, e.body), (False, e.orelse)):
+                    ps = PathSummary()
+                    _expand_test(e.test, pol, fi, env, ps, ps.state)
+                    expand(br, conds | ps.opaque)
+            else:
+                outcomes.append((conds, set(), norm(e)))
+
+        expand(coll.elt, set())
     elif isinstance(coll, ast.Name):
         loops = [l for l in walk_own(fi.node) if isinstance(l, ast.For) and norm(l.iter) == f"{s}.split('\\n')"]
-        init = single_def(fi, coll.id)
-        if len(loops) != 1 or init is None or norm(init) not in ("[]", "list()"):
+        init = resolve(coll, fi)
+        if len(loops) != 1 or init is coll or norm(init) not in ("[]", "list()"):
             return False, "lines are not collected by one loop over every line of the text"
-        body = [x for x in loops[0].body if not (isinstance(x, ast.Expr) and isinstance(x.value, ast.Constant))]
-        if len(body) != 1 or not (isinstance(body[0], ast.Expr) and isinstance(body[0].value, ast.Call) and norm(body[0].value.func) == f"{coll.id}.append" and len(body[0].value.args) == 1):
-            return False, "the loop does not append exactly one result per line"
-        producer, ln = body[0].value.args[0], norm(loops[0].target)
+        lp = loops[0]
+        ln = norm(lp.target)
+        if any(isinstance(x, (ast.Break, ast.Return)) for x in ast.walk(lp)):
+            return False, "the line loop can stop early"
+        sums, _ = summarize(fi=None, body=lp.body, env=env)
+        for sm in sums:
+            apps = [c for c in sm.calls if norm(c.func) == f"{coll.id}.append" and len(c.args) == 1]
+            if len(apps) != 1 or len(sm.calls) != 1:
+                return False, f"a path through the line loop appends {len(apps)} entries for one line (a line is dropped or duplicated)"
+            produced = apps[0].args[0]
+            hops = 0
+            while isinstance(produced, ast.Name) and hops < 4:
+                # a local set on this very path (e.g. the result of an expanded per-line helper)
+                d = [x for x in sm.stmts if isinstance(x, ast.Assign) and len(x.targets) == 1 and norm(x.targets[0]) == produced.id]
+                if not d:
+                    break
+                produced, hops = d[-1].value, hops + 1
+            outcomes.append((set(sm.opaque), set(sm.lits), norm(produced)))
     else:
         return False, "unrecognised way of collecting the lines"
-    want = {(f"{ln}.strip()", True), (f"{ln}.strip().startswith('[')", False)}
-    if isinstance(producer, ast.IfExp):
-        ps = PathSummary()
-        _expand_test(producer.test, True, fi, Env(fi, prog, inline_locals=False), ps, ps.state)
-        if ps.opaque == want and not ps.lits and norm(producer.body) == f"'#' + {ln}" and norm(producer.orelse) == ln:
-            return True, ""
-        return False, f"line rule is `{norm(producer)}`: every non-blank line that is not a table header must be commented out, headers and blank lines kept"
-    if isinstance(producer, ast.Call) and isinstance(producer.func, ast.Name) and len(producer.args) == 1 and norm(producer.args[0]) == ln:
-        h = prog.lookup(fi, producer.func.id)
-        from ..model import FuncInfo
-
-        if not isinstance(h, FuncInfo) or len(h.params) != 1:
-            return False, f"per-line helper {producer.func.id} not found"
-        p = h.params[0]
-        wanth = {(f"{p}.strip()", True), (f"{p}.strip().startswith('[')", False)}
-        sums, _ = summarize(h, env=Env(h, prog, inline_locals=False))
-        for sm in sums:
-            r = norm(sm.ret) if sm.ret is not None else None
-            if r == f"'#' + {p}":
-                if sm.opaque != wanth or sm.lits:
-                    return False, f"{h.short} comments a line out under {sorted(sm.opaque)}, not exactly for non-blank non-header lines"
-            elif r == p:
-                if wanth <= sm.opaque:
-                    return False, f"{h.short} leaves a non-blank non-header line uncommented"
-            else:
-                return False, f"{h.short} returns `{r}`"
-        if not any((norm(sm.ret) if sm.ret is not None else None) == f"'#' + {p}" for sm in sums):
-            return False, f"{h.short} never comments a line out"
-        return True, ""
-    return False, f"unrecognised per-line result `{norm(producer)}`"
+    nonblank, header = (f"{ln}.strip()", True), (f"{ln}.strip().startswith('[')", True)
+    n_comment = 0
+    for conds, lits, out in outcomes:
+        if lits:
+            return False, f"the line rule depends on {sorted(map(repr, lits))}"
+        key_line = nonblank in conds and (header[0], False) in conds
+        not_key = (nonblank[0], False) in conds or header in conds
+        extra = {c for c in conds if c[0] not in (nonblank[0], header[0])}
+        if out == f"'#' + {ln}":
+            n_comment += 1
+            if not key_line or extra:
+                return False, f"a line is commented out under {sorted(conds)}, not exactly for non-blank lines that are not table headers"
+        elif out == ln:
+            if not not_key:
+                return False, f"a line is kept as it is under {sorted(conds)}: every non-blank line that is not a table header must be commented out"
+        else:
+            return False, f"a line becomes `{out}`"
+    if not n_comment:
+        return False, "no line is ever commented out"
+    return True, ""
 
 
 def check(prog, rep):
